@@ -203,7 +203,7 @@ def run_unit(name, template, rlimit=30, canaries=True, threads=None, generator=N
 
     with cf.ThreadPoolExecutor(max_workers=1 + len(can_paths)) as ex:
         main_f = ex.submit(verus.run, gen, rlimit, None, threads)
-        can_f = {v: ex.submit(verus.run, p, rlimit, None, threads, 900, 0) for v, (p, _) in can_paths.items()}
+        can_f = {v: ex.submit(verus.run, p, rlimit, None, threads, 1800, 0) for v, (p, _) in can_paths.items()}
         vr = main_f.result()
         cres = {v: f.result() for v, f in can_f.items()}
 
@@ -236,7 +236,7 @@ def run_unit(name, template, rlimit=30, canaries=True, threads=None, generator=N
             open(cp, "w").write("\n".join(l.text for l in cl) + "\n")
             can_paths[v] = (cp, cl)
             expected[v] = len([l for l in cl if "// CANARY " in l.text])
-            cres[v] = verus.run(cp, rlimit, None, threads, 900, 0)
+            cres[v] = verus.run(cp, rlimit, None, threads, 1800, 0)
 
     # A proof found under any solver seed is a proof: re-run failing units with other seeds and keep
     # only the obligations that fail every time (guards against solver instability, never hides a
